@@ -529,7 +529,78 @@ def r20_6(chk):
     chk.floor("R20.6", 4, "stores of _order in Columns")
 
 
+READ_PATH = [("util/table.py", "cast_str_to_array"), ("util/table.py", "cast_str_to_numeric"), ("parse/table.py", "load_delimited"), ("__init__.py", "load_table")]
+
+
+def r20_7(chk):
+    chk.rule("R20.7", "text read from a delimited file is data: no function on the read path (load_table -> load_delimited -> cast_str_to_array / cast_str_to_numeric) passes it to eval/exec/compile -- an evaluated cell comes back as whatever the expression denotes ('abs' as a builtin, '1/0' as an exception), not as the text that was written; literals are parsed with ast.literal_eval. On the same path a first element is read (`values[0]`) only after the series was found non-empty, so a header-only file loads as a zero-row table")
+    from ..cfg import build
+
+    for rel, q in READ_PATH:
+        m = chk.repo.module(rel)
+        fn = m.func(q)
+        evals = [c for c in walk_no_nested(fn) if isinstance(c, ast.Call) and call_name(c) in ("eval", "exec", "compile", "builtins.eval")]
+        k = key(m, q, "cells are not evaluated")
+        for c in evals:
+            chk.violation("R20.7", key(m, q, f"evaluates `{norm(c)[:40]}`"), m.loc(c), f"`{norm(c)}` executes text that came from the file: the cell 'abs' is restored as the builtin function, '1/0' raises ZeroDivisionError out of load_table (and a crafted file runs code)")
+        if not evals:
+            chk.ok("R20.7", k, m.loc(fn), "no eval/exec/compile")
+        # unguarded first-element reads of a parameter
+        ps = set(params_of(fn))
+        g = build(fn)
+        firsts = g.nodes_containing(lambda x: isinstance(x, ast.Subscript) and isinstance(x.value, ast.Name) and x.value.id in ps and isinstance(x.slice, ast.Constant) and x.slice.value == 0 and isinstance(x.ctx, ast.Load))
+        for u in firsts:
+            names = {x.value.id for e in __import__("c3static.cfg", fromlist=["own_exprs"]).own_exprs(u) for x in ast.walk(e) if isinstance(x, ast.Subscript) and isinstance(x.value, ast.Name) and x.value.id in ps and isinstance(x.slice, ast.Constant) and x.slice.value == 0}
+            for nm in sorted(names):
+                # guarded inside the same test (`len(v) == 0 or ... v[0]`) or by a dominating emptiness test
+                same = any(isinstance(b, ast.BoolOp) and any(f"len({nm})" in norm(v) or norm(v) in (f"not {nm}", nm) for v in b.values[:-1]) for e in __import__("c3static.cfg", fromlist=["own_exprs"]).own_exprs(u) for b in ast.walk(e))
+                tests = [n for n in g.nodes if n.kind == "if" and (f"len({nm})" in norm(n.ast.test) or norm(n.ast.test) in (f"not {nm}", nm, f"{nm}.size == 0", f"not {nm}.size"))]
+                dom = bool(tests) and g.dominated_by(u, tests)[0]
+                chk.decide(same or dom, "R20.7", key(m, q, f"{nm}[0] read after an emptiness test"), m.loc(u.ast), "guarded by a length test", f"`{nm}[0]` is read without establishing that `{nm}` is non-empty: a column of a file with a header and no rows is empty, and loading such a file raises IndexError")
+    probe = ast.parse("def f(values):\n    for v in values:\n        v = eval(v)\n").body[0]
+    if not [c for c in ast.walk(probe) if isinstance(c, ast.Call) and call_name(c) == "eval"]:
+        raise AnalysisError("R20.7 self-probe failed")
+    chk.floor("R20.7", 4, "four read-path functions")
+
+
+def r20_8(chk):
+    chk.rule("R20.8", "list-of-rows semantics of filtering and sorting: (i) the row predicate is used through its truth value (bool(...), `if cb(row)`), never compared with == True / is True -- a predicate returning 2 or a non-empty string keeps the row in `[r for r in rows if cb(r)]`; (ii) the permutation that orders the rows comes from a stable sort (argsort(kind='stable'/'mergesort'), sorted, list.sort), as sorted(rows, key=...) is stable; (iii) Table.write appends '.gz' only to a name that carries no compression suffix of its own")
+    m = chk.repo.module(TABLE)
+    ci = m.cls("Table")
+    fn = ci.methods["get_row_indices"]
+    cmps = [c for c in walk_no_nested(fn) if isinstance(c, ast.Compare) and any(isinstance(x, ast.Call) and call_name(x) == "_callback" for x in ast.walk(c.left))]
+    calls = [c for c in walk_no_nested(fn) if isinstance(c, ast.Call) and call_name(c) == "_callback"]
+    if not calls:
+        raise AnalysisError("Table.get_row_indices: the predicate call was not found")
+    bad = [c for c in cmps if not (isinstance(c.left, ast.Call) and call_name(c.left) == "bool")]
+    chk.decide(not bad, "R20.8", key(m, "Table.get_row_indices", "predicate by truth value"), m.loc(bad[0] if bad else calls[0]), "the predicate's result goes through bool(...) before it is compared with the negate flag", f"`{norm(bad[0])[:80] if bad else ''}` compares the predicate's raw result with a boolean: a truthy result that is not `True` (2, 'x', numpy.int64(3)) drops the row")
+    st = ci.methods["sorted"]
+    argsorts = [c for c in walk_no_nested(st) if isinstance(c, ast.Call) and isinstance(c.func, ast.Attribute) and c.func.attr in ("argsort",) or (isinstance(c, ast.Call) and call_name(c) in ("numpy.argsort", "numpy.lexsort"))]
+    if not argsorts:
+        raise AnalysisError("Table.sorted: no argsort found")
+    for c in argsorts:
+        kind = [try_kind(kw.value) for kw in c.keywords if kw.arg == "kind"]
+        stable = call_name(c) == "numpy.lexsort" or (kind and kind[0] in ("stable", "mergesort"))
+        chk.decide(bool(stable), "R20.8", key(m, "Table.sorted", "stable permutation"), m.loc(c), f"{norm(c)}", f"`{norm(c)}` uses numpy's default (unstable) sort: rows with equal keys change their relative order (visible above 16 rows), unlike sorted(rows, key=...)")
+    w = ci.methods["write"]
+    adds = [st_ for st_ in walk_no_nested(w) if isinstance(st_, ast.Assign) and norm(st_.targets[0]) == "filename" and ".gz" in norm(st_.value)]
+    if not adds:
+        raise AnalysisError("Table.write: the statement appending '.gz' was not found")
+    sfx_names = {el.id for tg, v, _ in D.assignments(w) if isinstance(v, ast.Call) and call_name(v) == "get_format_suffixes" for t in tg if isinstance(t, (ast.Tuple, ast.List)) and len(t.elts) == 2 for el in [t.elts[1]] if isinstance(el, ast.Name)}
+    for a in adds:
+        gs = [t for t, br in _guards(w, a) if br]
+        okg = any(any(f"{nm} is None" == g or f"not {nm}" == g for nm in sfx_names) for g in gs)
+        chk.decide(okg, "R20.8", key(m, "Table.write", "'.gz' only for names without a compression suffix"), m.loc(a), f"under {gs}", f"'.gz' is appended under {gs}, not under a test of the compression suffix get_format_suffixes found: write('x.tsv.bz2') produces x.tsv.bz2.gz and nothing at the requested path")
+    chk.floor("R20.8", 3, "predicate, sort, compression suffix")
+
+
+def try_kind(e):
+    return e.value if isinstance(e, ast.Constant) else None
+
+
 def run(chk):
+    r20_7(chk)
+    r20_8(chk)
     r20_6(chk)
     r20_1(chk)
     r20_2(chk)
